@@ -38,7 +38,15 @@ import (
 	"strings"
 )
 
-func init() { generators["FuncsDom"] = genFuncsDom }
+func init() {
+	generators["FuncsDom"] = genFuncsDom
+	xlRegexps["\\[\\d+]$"] = "GoDom.reIdxSuffix"
+}
+
+// regular expressions: pattern text -> DomPrelude function giving FindStringIndex (nil = no match)
+var xlRegexpFind = map[string]string{
+	"\\[\\d+]$": "GoDom.reIdxSuffixFind",
+}
 
 var xlDomWhitelist = []xlFunc{
 	// interface of functions emitted in Generated/Funcs.lean
@@ -67,6 +75,7 @@ var xlDomWhitelist = []xlFunc{
 	{Pkg: "dom", Recv: "containerImpl", Name: "Flatten", Lean: "containerFlatten"},
 	{Pkg: "dom", Recv: "containerImpl", Name: "Search", Lean: "containerSearch"},
 	{Pkg: "dom", Recv: "containerImpl", Name: "Lookup", Lean: "containerLookup", NullRes: true},
+	{Pkg: "dom", Recv: "containerImpl", Name: "Child", Lean: "containerChild", NullRes: true, RecFuel: "($1).length + 1"},
 	// diff/diff.go  [C07]
 	{Pkg: "diff", Name: "appendMod", Lean: "appendMod", Acc: "res"},
 	{Pkg: "diff", Name: "flattenLeaf", Lean: "flattenLeaf", Acc: "res"},
@@ -204,6 +213,11 @@ func (x *xl) nullable(e ast.Expr) bool {
 			return true
 		}
 		return x.isOptVar(x.p.info.Uses[y])
+	case *ast.IndexExpr:
+		// m[k] on a map[string]Node: nil when the key is absent
+		if _, isMap := x.typeOf(y.X).Underlying().(*types.Map); isMap && domKind(x.typeOf(y.X)) == "cont" {
+			return true
+		}
 	case *ast.CallExpr:
 		if sel, ok := y.Fun.(*ast.SelectorExpr); ok {
 			if s, ok := x.p.info.Selections[sel]; ok && s.Kind() == types.MethodVal && domKind(x.typeOf(sel.X)) == "cont" {
@@ -800,7 +814,30 @@ func (x *xl) optionMatch(y *ast.IfStmt, rest []ast.Stmt, k *cont) ([]string, boo
 	var scrut string
 	var vObj, okObj types.Object
 	someFirst := true
-	if len(as.Lhs) == 2 {
+	if ta, isTA := as.Rhs[0].(*ast.TypeAssertExpr); isTA && len(as.Lhs) == 2 && ta.Type != nil {
+		// if l, ok := n.(dom.List); ok {A} else {B}
+		fn := map[string]string{"list": "GoDom.asList?", "cont": "GoDom.asContainer?", "leaf": "GoDom.asLeaf?"}[domKind(x.typeOf(ta.Type))]
+		if fn == "" || domKind(x.typeOf(ta.X)) != "node" {
+			return nil, true, x.errf(y, "comma-ok type assertion from %s to %s", x.typeOf(ta.X), x.typeOf(ta.Type))
+		}
+		cid, ok := y.Cond.(*ast.Ident)
+		okId, ok2 := as.Lhs[1].(*ast.Ident)
+		vId, ok3 := as.Lhs[0].(*ast.Ident)
+		if !ok || !ok2 || !ok3 || info.Uses[cid] == nil || info.Uses[cid] != info.Defs[okId] {
+			return nil, true, x.errf(y, "comma-ok type assertion whose condition is not the ok variable")
+		}
+		if x.nullable(ta.X) {
+			// a nil interface value fails the assertion (ok = false) instead of panicking
+			return nil, true, x.errf(y, "comma-ok type assertion on a possibly-nil value")
+		}
+		b, v, err := x.expr(ta.X)
+		if err != nil {
+			return nil, true, err
+		}
+		lines = append(lines, b...)
+		scrut = fn + " " + v
+		vObj, okObj = info.Defs[vId], info.Defs[okId]
+	} else if len(as.Lhs) == 2 {
 		ix, ok := as.Rhs[0].(*ast.IndexExpr)
 		if !ok {
 			return nil, false, nil
@@ -1213,4 +1250,45 @@ func (x *xl) domStdlib(c *ast.CallExpr, key string) ([]string, string, bool, err
 		return b, "(GoDom.stringsSplit1 " + s + " " + leanChar([]rune(constant.StringVal(tv.Value))[0]) + ")", true, nil
 	}
 	return nil, "", false, nil
+}
+
+// domRegexpCall: `re.FindStringIndex(s)` on a package-level regexp.MustCompile(literal)
+func (x *xl) domRegexpCall(c *ast.CallExpr, f *ast.SelectorExpr) ([]string, string, bool, error) {
+	id, ok := f.X.(*ast.Ident)
+	if !ok || f.Sel.Name != "FindStringIndex" || len(c.Args) != 1 {
+		return nil, "", false, nil
+	}
+	v, ok := x.p.info.Uses[id].(*types.Var)
+	if !ok || v.Pkg() == nil || v.Parent() != v.Pkg().Scope() {
+		return nil, "", false, nil
+	}
+	pat, ok := x.regexpPattern(v)
+	if !ok {
+		return nil, "", true, x.errf(c, "FindStringIndex on %s: not a package-level regexp.MustCompile(literal)", id.Name)
+	}
+	prim, ok := xlRegexpFind[pat]
+	if !ok {
+		return nil, "", true, x.errf(c, "FindStringIndex: regular expression %q has no DomPrelude counterpart", pat)
+	}
+	b, s, err := x.expr(c.Args[0])
+	if err != nil {
+		return nil, "", true, err
+	}
+	return b, "(" + prim + " " + s + ")", true, nil
+}
+
+// domIndex: `m[k]` on a map[string]dom.Node (nil when absent)
+func (x *xl) domIndex(y *ast.IndexExpr) ([]string, string, bool, error) {
+	if _, isMap := x.typeOf(y.X).Underlying().(*types.Map); !isMap || domKind(x.typeOf(y.X)) != "cont" {
+		return nil, "", false, nil
+	}
+	bm, m, err := x.expr(y.X)
+	if err != nil {
+		return nil, "", true, err
+	}
+	bk, k, err := x.expr(y.Index)
+	if err != nil {
+		return nil, "", true, err
+	}
+	return append(bm, bk...), "(GoDom.mapGet " + m + " " + k + ")", true, nil
 }
